@@ -245,10 +245,39 @@ def runHist {α : Type} (desc : FieldDesc) (F : FOps α) (uSpec bSpec : String) 
             else (st, "err Input")
           else step env desc st (parseOp line)
         | _ => step env desc st (parseOp line)
-    let (_, outs) := ops.foldl (fun (st, outs) line =>
-      let (st', r) := stepD st line
-      (st', outs ++ [if snap then r ++ " ## " ++ snapshot env st' else r])) (({} : St α), [])
-    let final := ops.foldl (fun st line => (stepD st line).1) ({} : St α)
+    -- `tcheck@f` (harness: every element of the field, with its table, against a twin field object without table:
+    -- x·g, x⁻¹, x·1): the model's reply is "no mismatch".
+    -- `quotient iN` followed by `qK=embed@3 qJ:r`: the ring made by the last successful `quotient` operation is used
+    -- (embedding with or without reduction); the driver remembers the generators `Quotient` stores for it.
+    let stepQ := fun (stq : St α × Option (List (BPoly α))) (line : String) =>
+      let (st, lastQ) := stq
+      let toks := (line.trimAscii.toString.splitOn " ").filter (· != "")
+      if line.startsWith "tcheck@" then ((st, lastQ), "ok 0 of " ++ toString (env.fld (atIdx line)).card)
+      else if line.startsWith "quotient " then
+        let (st', r) := stepD st line
+        let lq := if r == "ok" then BPoly.quotientGens F ord (iGet st (regNum (toks.getD 1 ""))) else lastQ
+        ((st', lq), r)
+      else if (toks.headD "").contains '=' && (((toks.headD "").splitOn "=").getD 1 "") == "embed@3" then
+        match lastQ, (toks.getD 1 "").splitOn ":" with
+        | some gs, [srcS, redS] =>
+          let ra := bGet st (regNum srcS)
+          let dst := regNum (((toks.headD "").splitOn "=").getD 0 "")
+          if ra.home == 2 then ((st, lastQ), "err InputIncompatible")
+          else
+            let R3 : BPoly.Ring α := { bBase with ideal := some gs }
+            match (if redS == "1" then BPoly.reduceIn R3 ra.val else some ra.val) with
+            | none => ((st, lastQ), "fuel-exhausted")
+            | some v =>
+              let r : BReg α := { home := 3, val := v, err := ra.err }
+              (({ st with bs := St.setL st.bs dst r }, lastQ), "ok " ++ showB env r)
+        | _, _ => ((st, lastQ), "bad-op")
+      else
+        let (st', r) := stepD st line
+        ((st', lastQ), r)
+    let (_, outs) := ops.foldl (fun (stq, outs) line =>
+      let (stq', r) := stepQ stq line
+      (stq', outs ++ [if snap then r ++ " ## " ++ snapshot env stq'.1 else r])) ((({} : St α), none), [])
+    let final := (ops.foldl (fun stq line => (stepQ stq line).1) ((({} : St α), none))).1
     " | ".intercalate outs ++ (if snap then "" else " ## " ++ snapshot env final)
   | _, _, _ => "fuel-exhausted (ring specification: ideal computation gave up or malformed generators)"
 
